@@ -22,6 +22,7 @@ func init() {
 	reg("C14", "C14.R2", "E7", "tag -> primitive agreement: comparison tags, field operators, logical operators", 3, ruleTagSemantics)
 	reg("C14", "C14.R3", "E1", "evaluation methods are pure", 5, ruleCheckPure)
 	reg("C14", "C14.R5", "E2", "tree construction keeps the configured operands; operands of a nested node are spliced only for and/or", 1, ruleTreeConstruction)
+	reg("C14", "C14.R6", "E7", "check_type: each documented type name selects that type's node predicate, with its own already-listed marker", 6, ruleCheckTypeTable)
 	reg("C14", "C14.R4", "E2", "legacy match_fields: or / and shapes and inversion", 2, ruleLegacyMatch)
 }
 
@@ -622,4 +623,159 @@ func ruleTreeConstruction(c *Ctx, r *Rule) {
 
 func constInt64(k *types.Const) (int64, bool) {
 	return constant.Int64Val(k.Val())
+}
+
+// ruleCheckTypeTable: check_type — every documented type name selects the node predicate of that
+// type, and the "already listed" marker that suppresses a repeated name is a different one for every
+// predicate (a shared marker silently drops the type listed second, making the verdict depend on the
+// order of the configured values).
+func ruleCheckTypeTable(c *Ctx, r *Rule) {
+	fn := c.Func("pipeline/doif", "NewCheckTypeOpNode")
+	if fn == nil {
+		r.Unresolved("doif.NewCheckTypeOpNode")
+		return
+	}
+	expected := map[string]string{"obj": "IsObject", "object": "IsObject", "arr": "IsArray", "array": "IsArray", "num": "IsNumber", "number": "IsNumber",
+		"str": "IsString", "string": "IsString", "null": "IsNull", "nil": "IsNil"}
+	// node predicates referenced by a value: a closure calling Node.IsX, a method expression, a thunk
+	var predsOf func(v ssa.Value, d int) []string
+	predsOf = func(v ssa.Value, d int) []string {
+		if d > 3 {
+			return nil
+		}
+		var f *ssa.Function
+		switch x := v.(type) {
+		case *ssa.MakeClosure:
+			f, _ = x.Fn.(*ssa.Function)
+		case *ssa.Function:
+			f = x
+		case *ssa.ChangeType:
+			return predsOf(x.X, d+1)
+		case *ssa.MakeInterface:
+			return predsOf(x.X, d+1)
+		}
+		if f == nil {
+			return nil
+		}
+		isPred := func(g *ssa.Function) bool {
+			if g == nil || !strings.HasPrefix(g.Name(), "Is") || g.Signature.Recv() == nil {
+				return false
+			}
+			rn := namedOf(g.Signature.Recv().Type())
+			return rn != nil && rn.Obj().Pkg() != nil && rn.Obj().Pkg().Path() == insanePkg && rn.Obj().Name() == "Node"
+		}
+		if isPred(f) {
+			return []string{f.Name()}
+		}
+		var out []string
+		for _, ci := range callsIn(f) {
+			if g := ci.Common().StaticCallee(); isPred(g) {
+				out = append(out, g.Name())
+			}
+		}
+		return out
+	}
+	type group struct {
+		tags  []string
+		preds map[string]bool
+		keys  map[string]bool
+		pos   token.Pos
+	}
+	groups := map[string]*group{}
+	guards := c.guards(fn)
+	for _, b := range fn.Blocks {
+		var tags []string
+		for _, cl := range guards[b] {
+			var ts []string
+			okCl := len(cl) > 0
+			for _, l := range cl {
+				op, _, y, isCmp := cmpLit(l)
+				k, isK := y.(*ssa.Const)
+				if !isCmp || op != token.EQL || !isK || k.Value == nil || k.Value.Kind() != constant.String {
+					okCl = false
+					break
+				}
+				ts = append(ts, constant.StringVal(k.Value))
+			}
+			if okCl && (tags == nil || len(ts) < len(tags)) {
+				tags = ts
+			}
+		}
+		if len(tags) == 0 {
+			continue
+		}
+		sort.Strings(tags)
+		id := strings.Join(tags, ",")
+		g := groups[id]
+		if g == nil {
+			g = &group{tags: tags, preds: map[string]bool{}, keys: map[string]bool{}}
+			groups[id] = g
+		}
+		for _, in := range b.Instrs {
+			if g.pos == token.NoPos && in.Pos() != token.NoPos {
+				g.pos = in.Pos()
+			}
+			for _, op := range in.Operands(nil) {
+				if *op == nil {
+					continue
+				}
+				for _, p := range predsOf(*op, 0) {
+					g.preds[p] = true
+				}
+				if k, isK := (*op).(*ssa.Const); isK && k.Value != nil {
+					if n, isN := k.Type().(*types.Named); isN && n.Obj().Pkg() != nil && n.Obj().Pkg().Path() == doifPkg && k.Value.Kind() == constant.Int {
+						g.keys[n.Obj().Name()+"="+k.Value.ExactString()] = true
+					}
+				}
+			}
+		}
+	}
+	keyOwner := map[string]string{}
+	seenTag := map[string]bool{}
+	var ids []string
+	for id := range groups {
+		ids = append(ids, id)
+	}
+	sort.Strings(ids)
+	for _, id := range ids {
+		g := groups[id]
+		if len(g.preds) == 0 && len(g.keys) == 0 {
+			continue
+		}
+		r.Inst(1)
+		var ps, ks []string
+		for p := range g.preds {
+			ps = append(ps, p)
+		}
+		for k := range g.keys {
+			ks = append(ks, k)
+		}
+		sort.Strings(ps)
+		sort.Strings(ks)
+		okP := len(ps) == 1
+		for _, t := range g.tags {
+			seenTag[t] = true
+			if e, has := expected[t]; !has || !okP || e != ps[0] {
+				okP = false
+			}
+		}
+		r.Ob(okP, "check_type|"+id+"|predicate", g.pos, fmt.Sprintf("type name(s) %s select the node predicate of that type (found %s)", id, strings.Join(ps, ",")))
+		okK := len(ks) == 1
+		if okK && len(ps) == 1 {
+			if prev, had := keyOwner[ks[0]]; had && prev != ps[0] {
+				okK = false
+			} else {
+				keyOwner[ks[0]] = ps[0]
+			}
+		}
+		r.Ob(okK, "check_type|"+id+"|own-marker", g.pos, fmt.Sprintf("the already-listed marker of %s is its own (found %s): a marker shared with another type drops whichever of the two is listed second", id, strings.Join(ks, ",")))
+	}
+	var missing []string
+	for t := range expected {
+		if !seenTag[t] {
+			missing = append(missing, t)
+		}
+	}
+	sort.Strings(missing)
+	r.Ob(len(missing) == 0, "check_type|all-names", fn.Pos(), "every documented type name has a case"+ifs(len(missing) > 0, "; missing: "+strings.Join(missing, ",")))
 }
